@@ -111,6 +111,11 @@ def population_costs(r, size, m, template=None):
     elif template == "mixed_feas":
         for _ in range(size):
             out.append(cost_vector(r, m, r.choice(["grid", "float"])) + [marker_value(r, 0.5)])
+    if r.random() < 0.2:
+        # the same population with every objective on its own scale (exact: powers of two); dominance, ranks and crowding
+        # ratios are invariant, sums across objectives and absolute thresholds are not
+        ks = [r.choice([0, 0, -300, 300, -1000, 900, r.randint(-1000, 900)]) for _ in range(m)]
+        out = [[c[d] * 2.0 ** ks[d] for d in range(m)] + [c[-1]] for c in out]
     r.shuffle(out)
     return out
 
